@@ -107,3 +107,12 @@ def judge(case, impl, model):
     # attributed any more; a failure in an `untruthful` / `clazzFails` case is an ordinary violation)
     return {'corr': corr, 'pfail': pfail, 'finding': finding, 'nontrivial': bool(claimed),
             'tag': f"{case['x']['kind']}/{case['x']['flavour']}/{case['x']['needle']}/conf={int(s['allConforming'])}/{out}", 'why': why}
+
+
+def twins(case):
+    """amplified run: primed twins of call-layer cases (one def executed twice with other annotations, number twins: _call_common.twins)"""
+    return C.twins(case)
+
+
+import _checker_common as _K
+export_state, import_state = _K.export_state, _K.import_state      # the name table travels with replays / amplified runs
